@@ -232,6 +232,21 @@ pub fn cfgs_c04() -> Vec<SrvCfg> {
         c.cap_values = cap;
         v.push(c);
     }
+    // sequence numbers at and below zero are ordinary sequence numbers
+    {
+        let mut a = vec![
+            Act::Get { src: 0, target: 7, seq: None },
+            Act::Get { src: 0, target: 7, seq: Some(-2) },
+            Act::Get { src: 0, target: 7, seq: Some(0) },
+            Act::Get { src: 0, target: 7, seq: Some(i64::MIN) },
+        ];
+        for (seq, val, cas) in [(0i64, 0u8, Cas::None), (-3, 1, Cas::None), (-1, 1, Cas::Fixed(-3)), (-1, 0, Cas::Fixed(0)), (i64::MIN, 0, Cas::None), (1, 1, Cas::Match), (i64::MAX, 0, Cas::None)] {
+            a.push(Act::PutMut { src: 0, key: 2, salt: 0, seq, val, cas, sig: Sig::Valid, tok: Tok::Fresh });
+        }
+        let mut c = base("c04-nonpositive-seq", a, p);
+        c.cap_values = 2;
+        v.push(c);
+    }
     v
 }
 
